@@ -43,6 +43,8 @@ def mutant_list(C):
     for meta in sorted(glob.glob(os.path.join(C.ROOT, 'seeded', '*', 'meta.json'))):
         m = json.load(open(meta))
         d = os.path.dirname(meta)
+        if m.get('not_covered'):
+            continue   # kept for the record: needs a build configuration no flavour has (see meta.json / DESIGN 9.4)
         out.append(dict(name='seeded/' + os.path.basename(d), patch=os.path.join(d, 'patch.diff'), property=m['check_property'], flavours=m.get('flavours'), seconds=m.get('seconds', 12)))
     return out
 
